@@ -95,9 +95,11 @@ def check(case):
         return res
     # first row: the initial state (no rules in these models)
     for s in names:
-        if x[0, col[s]] != sp["x0"][s]:
+        if tp[0] == 0 and x[0, col[s]] != sp["x0"][s]:
             res.fail(("first_row", sim), species=s, got=float(x[0, col[s]]), expected=sp["x0"][s])
             return res
+    if tp[0] != 0:
+        res.label("grid_starts_after_simulation_start")
     # (ii) integrality
     if np.any(x != np.round(x)):
         r_, c_ = np.argwhere(x != np.round(x))[0]
@@ -108,9 +110,10 @@ def check(case):
     laws = conservation_laws(sp)
     for w in laws:
         tot = sum(w[s] * xi[:, col[s]] for s in w)
-        if np.any(tot != tot[0]):
-            k = int(np.argmax(tot != tot[0]))
-            res.fail(("conservation_law", sim), law=w, row=k, got=int(tot[k]), expected=int(tot[0]))
+        tot0 = sum(w[s] * int(sp["x0"][s]) for s in w)          # conserved from the initial state on
+        if np.any(tot != tot0):
+            k = int(np.argmax(tot != tot0))
+            res.fail(("conservation_law", sim), law=w, row=k, got=int(tot[k]), expected=int(tot0))
             return res
     S, Sd = ref.stoich(sp)
     nr = len(sp["reactions"])
@@ -261,7 +264,8 @@ def cases(draw):
     sp = draw(networks(safe, delayed_reactants=sim in ("safe_ssa", "safe_volume", "model_api_safe")))
     dt = draw(st.sampled_from([0.03125, 0.0625, 0.125, 0.25, 0.5]))
     n = draw(st.integers(3, 30))
-    return {"kind": "path", "spec": sp, "sim": sim, "grid": [i * dt for i in range(n)],
+    k0 = draw(st.sampled_from([0, 0, 0, 3, 8]))      # the reported grid may start after the simulation start (time 0)
+    return {"kind": "path", "spec": sp, "sim": sim, "grid": [(k0 + i) * dt for i in range(n)],
             "instrumented": draw(st.integers(0, 4)) > 0, "vol": draw(st.sampled_from([1.0, 0.5, 2.0, 3.7])),
             "seed": draw(st.integers(1, 2 ** 40))}
 
